@@ -1704,6 +1704,14 @@ func (z *Decimal) SetBitsExp(mant []Word, exp int64) *Decimal {
 			}
 			z.prec = umax32(uint32(digits), DefaultDecimalPrec)
 		}
+		// Keep the exponent correction below from wrapping around int64;
+		// anything that far outside [MinExp, MaxExp] over- or underflows anyway.
+		const lim = 1 << 62
+		if exp > lim {
+			exp = lim
+		} else if exp < -lim {
+			exp = -lim
+		}
 		z.setExpAndRound(exp-dnorm(z.mant)-int64(len(mant)-len(z.mant))*_DW, 0)
 	} else {
 		z.acc = Exact
